@@ -160,17 +160,34 @@ class Templates:
             (repo / f).write_text(f"content of {f}\n")
         (repo / ".gitignore").write_text("*.log\n")
         if version != "<missing>":
-            envfile = (repo if layout == "tracked" else d) / "mockery-tools.env"
+            # viper searches "." before "../" (root.go:31-32): in layout "both" the tracked file in the work tree is
+            # the requested version and the one in the parent directory is a decoy that must never be read
+            envfile = (d if layout == "parent" else repo) / "mockery-tools.env"
             envfile.write_text(f"VERSION={version}\n")
+            if layout == "both":
+                (d / "mockery-tools.env").write_text("VERSION=v9.9.9\n")
         git(repo, e, "add", "-A")
         git(repo, e, "commit", "-q", "-m", "c1")
+        # history  1 <- 2 (main, HEAD)   and   1 <- 3 (side): tags may sit on commits that are no ancestors of HEAD
+        git(repo, e, "checkout", "-q", "-b", "side")
+        (repo / "side.txt").write_text("only on side\n")
+        git(repo, e, "add", "-A")
+        git(repo, e, "commit", "-q", "-m", "c3")
+        git(repo, e, "checkout", "-q", "main")
+        with open(repo / "log.txt", "a") as f:
+            f.write("c2\n")
+        git(repo, e, "add", "-A")
+        git(repo, e, "commit", "-q", "-m", "c2")
         git(d, e, "init", "-q", "--bare", "-b", "main", f"--template={self.empty}", "origin.git")
         git(repo, e, "remote", "add", "origin", "../origin.git")
         git(repo, e, "push", "-q", "-u", "origin", "main")
+        git(repo, e, "push", "-q", "-u", "origin", "side")
         for gd in (repo, d / "origin.git"):      # few files => cheap per-case copies; clones look like this too
             git(gd, e, "repack", "-a", "-d", "-q")
             git(gd, e, "prune-packed", "-q")
-        c1 = git(repo, e, "rev-parse", "HEAD").strip()
+        c1 = {git(repo, e, "rev-parse", r).strip(): i for r, i in (("main~1", 1), ("main", 2), ("side", 3))}
+        if len(c1) != 3:
+            raise MachineryError("template repository: the three initial commits are not distinct")
         obs0 = Repo(d, e, c1, False).observe()     # identical in every copy of the template
         self.made[key] = (d, c1, obs0)
         return self.made[key]
@@ -185,7 +202,7 @@ class Repo:
         self.root = root
         self.repo = root / "repo"
         self.env = env
-        self.commits = {c1: 1}  # sha -> index
+        self.commits = dict(c1)  # sha -> index (1 <- 2 main, 1 <- 3 side)
         self.ids = {}           # tag object oid -> serial
         self.nu = 0
         self.packed = packed
@@ -233,6 +250,8 @@ git fsck --no-dangling --connectivity-only 2>&1
                 elif typ == "tag":
                     rec = {"c": self.commits.get(poid, 99) if ptyp == "commit" else 98, "k": "annotated",
                            "id": self.ids.setdefault(oid, len(self.ids) + 1)}
+                elif typ == "tree":
+                    rec = {"c": 0, "k": "tree", "id": 0}      # a version-named ref with no commit behind it
                 else:
                     rec = {"c": 97, "k": typ, "id": 0}
                 tags[short] = rec
@@ -344,7 +363,7 @@ def replay(case, ci, tmpl, tools, workdir, variant):
     shutil.copytree(src, root, symlinks=True)
     r = Repo(root, tmpl.env, c1, packed)
     events, verdicts, drift = [], [], []
-    events.append({"op": "reset", "case": ci, "version": version, "obs": pub(o)})
+    events.append({"op": "reset", "case": ci, "version": version, "n": len(c1), "obs": pub(o)})
     synced = True
     stats = {"runs": 0, "tagged": 0, "refused_though_permitted": 0}
     log = []
@@ -367,19 +386,26 @@ def replay(case, ci, tmpl, tools, workdir, variant):
             sha = [s for s, i in r.commits.items() if i == op["c"]]
             if not sha:
                 raise MachineryError(f"case {ci}: checkout of unknown commit {op['c']}")
-            pre.append(f"git checkout -q --detach {sha[0]}")
+            tip = [ln.split("\t")[0][len("refs/heads/"):] for ln in o["_other"]["refs"]
+                   if ln.startswith("refs/heads/") and ln.split("\t")[1] == sha[0]]
+            if tip and (ci + si) % 2 == 0:
+                pre.append(f"git checkout -q {tip[0]}")          # HEAD attached to the branch whose tip it is
+            else:
+                pre.append(f"git checkout -q --detach {sha[0]}")
             ev = {"op": "checkout", "c": op["c"]}
         elif kind == "usertag":
-            if not re.fullmatch(r"[A-Za-z0-9._-]+", op["name"]):
+            if not re.fullmatch(r"[A-Za-z0-9._+/-]+", op["name"]):
                 raise MachineryError(f"tag name {op['name']!r} outside the harness' safe alphabet")
             if op["kind"] == "light":
                 pre.append(f"git tag {op['name']}")
+            elif op["kind"] == "tree":
+                pre.append(f"git tag {op['name']} 'HEAD^{{tree}}'")
             else:
                 pre.append(f"git tag -a -m 'user tag {op['name']}' {op['name']}")
             ev = {"op": "usertag", "name": op["name"], "kind": op["kind"]}
         elif kind == "alias":
             for nm in (op["name"], op["src"]):
-                if not re.fullmatch(r"[A-Za-z0-9._+-]+", nm):
+                if not re.fullmatch(r"[A-Za-z0-9._+/-]+", nm):
                     raise MachineryError(f"tag name {nm!r} outside the harness' safe alphabet")
             pre.append(f"git tag {op['name']} refs/tags/{op['src']}")   # src is annotated: both refs share ONE tag object
             ev = {"op": "alias", "name": op["name"], "src": op["src"]}
@@ -412,9 +438,12 @@ def replay(case, ci, tmpl, tools, workdir, variant):
             (root / "mockery-tools.env").write_text(f"VERSION={op['version']}\n")
             ev = {"op": "bump", "version": op["version"]}
         elif kind == "run":
-            args = {"absent": [], "true": ["--dry-run=true"], "false": ["--dry-run=false"]}[op["flag"]]
-            if op["flag"] == "true" and (ci + si) % 2:
-                args = ["--dry-run"]        # the bare spelling of the same flag value
+            # spellings of the same flag value (pflag bool syntax; a repeated flag: the last one wins)
+            sp = {"absent": [[]],
+                  "true": [["--dry-run=true"], ["--dry-run"], ["--dry-run=1"], ["--dry-run=false", "--dry-run=true"], ["--dry-run=T"]],
+                  "false": [["--dry-run=false"], ["--dry-run=false", "--dry-run=false"], ["--dry-run=0"],
+                            ["--dry-run=true", "--dry-run=false"], ["--dry-run=False"], ["--dry-run=false"]]}[op["flag"]]
+            args = sp[(ci + si) % len(sp)]
             t0 = time.time()
             try:
                 p = subprocess.run([str(tools), "tag", *args], cwd=r.repo, env=tmpl.env, capture_output=True, text=True,
@@ -733,7 +762,7 @@ def run(ctx):
     variants = {}
     for i in order:      # concretisation choices (not part of the abstract state): env-file place, packed refs
         h = (i * 7 + ctx.seed * 13)
-        variants[i] = ("tracked" if h % 2 == 0 else "parent", (h // 2) % 3 == 0)
+        variants[i] = (("tracked", "parent", "both", "parent")[h % 4], (h // 4) % 3 == 0)
         if any(o["op"] == "bump" for o in cases[i]["ops"]):
             variants[i] = ("parent", variants[i][1])
     for i in order:      # templates are created sequentially (cheap), replays run in parallel
